@@ -402,6 +402,18 @@ def t13_avar(run, fx):
             zs = sym.strip(z)
             if zs[0] == "c" and isinstance(zs[1], int) and not isinstance(zs[1], bool) and op in ("Lt", "Le", "Gt", "Ge"):
                 bad.append("%s %s" % (op, zs[1]))
+    # `match a.cmp(&b) { Less / Equal / Greater }` is a comparison too
+    for bi, t in b.calls():
+        if str(t["callee"].get("path") or "").endswith(("Ord::cmp", "PartialOrd::partial_cmp")) and len(t["args"]) == 2:
+            n += 1
+            for a in t["args"]:
+                a = sym.strip(prov.op(a))
+                while a[0] in ("ref", "deref"):
+                    a = sym.strip(a[1])
+                consts = [x for x in sym.walk(a) if x[0] == "c"]
+                nonconst = [x for x in sym.walk(a) if x[0] in ("arg", "local", "field")]
+                if consts and not nonconst:
+                    bad.append(sym.show(a)[:60])
     if bad:
         run.fail(rule, "avar-constant-compare", "SegmentMap::normalize compares the coordinate with the constant(s) %s: values at or beyond them bypass the "
                  "segment map" % sorted(set(bad)), "%s:%s" % (b.file, b.line))
@@ -555,6 +567,11 @@ def t13_seg(run, fx):
     class Ev(fnread.GridEval):
         def atom(self, t):
             if t[0] == "discr":
+                inner = t[1]
+                while inner[0] in ("ref", "deref"):
+                    inner = inner[1]
+                if inner[0] == "call" and str(inner[1] or "").endswith(("::cmp", "::partial_cmp")):
+                    return None         # an Ordering: evaluated structurally
                 txt = sym.show(t[1], 0)
                 if "next(" in txt:
                     return Fraction(self.a["has_e"])
